@@ -51,29 +51,29 @@ mod sp_weighted__pari;
 mod set_reach__ser;
 mod set_reach__src0;
 mod bset__par;
-mod opt_lat__par;
-mod lat_two_keys__ser;
-mod lat_val_bound__ser;
-mod count_paths__run;
-mod count_paths__runpar;
-mod neg_basic__mrt;
-mod neg_basic__srcpar;
-mod agg_minmaxsum__par;
-mod agg_lattice__par;
-mod neg_rec_after__par;
-mod agg_empty__par;
-mod agg_empty_rel__topar;
-mod disj__pari;
-mod disj__src2;
-mod disj__permpar;
-mod pat_args__ser;
-mod rep_expr__exp;
-mod neg_in_disj__par;
-mod mac_basic__topar;
-mod mac_basic__init;
-mod mac_capture__exp;
-mod mac_gensym_disj__par;
-mod mac_disj__exppar;
+mod cp__topar;
+mod bool_lat__par;
+mod lat_multi_improve__to;
+mod count_paths__to;
+mod count_paths__redecl;
+mod neg_basic__topar;
+mod neg_basic__init;
+mod neg_basic__exppar;
+mod agg_depth__topar;
+mod agg_user__pari;
+mod agg_bound_mix__pari;
+mod agg_empty_rel__pari;
+mod disj__ser;
+mod disj__src0;
+mod disj__perm2;
+mod disj_nested__exp;
+mod rep_expr__par;
+mod multi_head_disj__exppar;
+mod mac_basic__pari;
+mod mac_basic__src2;
+mod mac_capture__par;
+mod mac_nested__exppar;
+mod mac_disj__pari;
 
 fn lookup(name: &str) -> fn() -> Box<dyn Driven> {
    match name {
@@ -120,29 +120,29 @@ fn lookup(name: &str) -> fn() -> Box<dyn Driven> {
       "set_reach__ser" => set_reach__ser::make,
       "set_reach__src0" => set_reach__src0::make,
       "bset__par" => bset__par::make,
-      "opt_lat__par" => opt_lat__par::make,
-      "lat_two_keys__ser" => lat_two_keys__ser::make,
-      "lat_val_bound__ser" => lat_val_bound__ser::make,
-      "count_paths__run" => count_paths__run::make,
-      "count_paths__runpar" => count_paths__runpar::make,
-      "neg_basic__mrt" => neg_basic__mrt::make,
-      "neg_basic__srcpar" => neg_basic__srcpar::make,
-      "agg_minmaxsum__par" => agg_minmaxsum__par::make,
-      "agg_lattice__par" => agg_lattice__par::make,
-      "neg_rec_after__par" => neg_rec_after__par::make,
-      "agg_empty__par" => agg_empty__par::make,
-      "agg_empty_rel__topar" => agg_empty_rel__topar::make,
-      "disj__pari" => disj__pari::make,
-      "disj__src2" => disj__src2::make,
-      "disj__permpar" => disj__permpar::make,
-      "pat_args__ser" => pat_args__ser::make,
-      "rep_expr__exp" => rep_expr__exp::make,
-      "neg_in_disj__par" => neg_in_disj__par::make,
-      "mac_basic__topar" => mac_basic__topar::make,
-      "mac_basic__init" => mac_basic__init::make,
-      "mac_capture__exp" => mac_capture__exp::make,
-      "mac_gensym_disj__par" => mac_gensym_disj__par::make,
-      "mac_disj__exppar" => mac_disj__exppar::make,
+      "cp__topar" => cp__topar::make,
+      "bool_lat__par" => bool_lat__par::make,
+      "lat_multi_improve__to" => lat_multi_improve__to::make,
+      "count_paths__to" => count_paths__to::make,
+      "count_paths__redecl" => count_paths__redecl::make,
+      "neg_basic__topar" => neg_basic__topar::make,
+      "neg_basic__init" => neg_basic__init::make,
+      "neg_basic__exppar" => neg_basic__exppar::make,
+      "agg_depth__topar" => agg_depth__topar::make,
+      "agg_user__pari" => agg_user__pari::make,
+      "agg_bound_mix__pari" => agg_bound_mix__pari::make,
+      "agg_empty_rel__pari" => agg_empty_rel__pari::make,
+      "disj__ser" => disj__ser::make,
+      "disj__src0" => disj__src0::make,
+      "disj__perm2" => disj__perm2::make,
+      "disj_nested__exp" => disj_nested__exp::make,
+      "rep_expr__par" => rep_expr__par::make,
+      "multi_head_disj__exppar" => multi_head_disj__exppar::make,
+      "mac_basic__pari" => mac_basic__pari::make,
+      "mac_basic__src2" => mac_basic__src2::make,
+      "mac_capture__par" => mac_capture__par::make,
+      "mac_nested__exppar" => mac_nested__exppar::make,
+      "mac_disj__pari" => mac_disj__pari::make,
       _ => panic!("no such program variant in this shard: {}", name),
    }
 }
